@@ -69,15 +69,17 @@ func init() {
 			ruleCTAgree(c, s)
 			ruleODSync(c, s)
 			ruleCRCDecompress(c, s, "OD-CRC")
+			ruleCPNoDict(c)
 			ruleODLenFlow(c, s)
 			ruleERPass(c, s)
 			ruleODLoop(c, s)
 			c.Rule("ER-CHECK", erClauses["ER-CHECK"], 20)
 			for _, fn := range readerFuncs(c.P, s) {
-				erCheck(c, fn, erOpts{allowEOFNil: fn == s.fn}, "ER-CHECK", "", "", erClauses)
+				erCheck(c, fn, erOpts{allowEOFNil: fn == s.fn || rfEOFDecided(c.P, fn)}, "ER-CHECK", "", "", erClauses)
 			}
 			c.Note("not decided: correctness of compress/flate, snappy and crc32 themselves; the values of decoded records (C03)")
 			ruleERUEOF(c)
+			ruleODAccept(c, s)
 		})
 
 	register("C08",
@@ -99,7 +101,7 @@ func init() {
 			ruleODLenFlow(c, s)
 			c.Rule("ER-CHECK", erClauses["ER-CHECK"], 10)
 			for _, fn := range readerFuncs(c.P, s) {
-				erCheck(c, fn, erOpts{allowEOFNil: fn == s.fn, skipCallee: func(cs *CallSite) bool {
+				erCheck(c, fn, erOpts{allowEOFNil: fn == s.fn || rfEOFDecided(c.P, fn), skipCallee: func(cs *CallSite) bool {
 					// C08 is about consuming the input: only the reads matter here
 					if cs.Static == nil {
 						return true
